@@ -250,6 +250,14 @@ def bounded(tier, seed):
         v = cls('/a') if code == 'o' else cls('i') if code == 'g' else cls(1)
         if marshal.sigFromPy(v) != code:
             return n, 'sigFromPy(%s(...)) = %r, the wrapper declares %r' % (name, marshal.sigFromPy(v), code), {'wrapper': name}
+    # regression cases of the repaired inference defects (and their mirror images), checked on every run
+    fixed_cases = [[1, marshal.Int64(2**40)], {'a': 1, 'b': marshal.UInt64(2**64 - 1)}, {'k0': -1, 'k1': True}, [marshal.Byte(1), 300],
+                   {'a': 'x', 'b': marshal.ObjectPath('/p')}, [5, True], [True, 5], ['a', marshal.ObjectPath('/b')], {'k0': 2**31 - 1, 'k1': marshal.Int64(-2**63)}]
+    for v in fixed_cases:
+        n += 1
+        f = infer_case(v, True)
+        if f:
+            return n, f, {'value': repr(v)}
     for _ in range(6000 if tier == 'thorough' else 1500):
         v, within = gen_py(rnd)
         n += 1
